@@ -931,3 +931,8 @@ V('c07-g92-adds-native-amount-to-logical', ['C07', 'C04', 'C05'], [(R, """      
                 "G92 E{e}".format(e=plainDecimal(eAxis.nativeToLogical() + amount))
             )
 """)])
+# ---------------------------------------------------------------- round 19 rules
+V('c04-g92-e0-not-applied', ['C04', 'C08'], [(H, """                    position.E_AXIS.setLogicalPosition(value)
+                elif (label == "X"):""", """                    if (value):
+                        position.E_AXIS.setLogicalPosition(value)
+                elif (label == "X"):""")])
